@@ -398,6 +398,26 @@ func runRace(c *Race) (*verdict, bool) {
 			return failf(b, "takeover/stream-message-lost", "QoS 1 message %s was acknowledged to its publisher during the takeover, the session was persistent throughout (no clean connect), yet neither a displaced connection nor the survivor (%s) ever received it", missing, survivor.a.name), true
 		}
 	}
+	// the survivor finishes the QoS 2 exchange the incumbent had begun (PUBLISH id 5
+	// recorded, PUBREC sent): every PUBREL is answered - with the session, or
+	// for an id the broker no longer knows - and the connection keeps answering
+	// afterwards
+	if c.Incumbent == "inflight-qos2" {
+		sp := survivor.a.p
+		from := len(sp.Inbox)
+		_ = sp.Send(&packet.Pubrel{ID: 5})
+		if sp.WaitFor(from, func(g packet.Generic) bool { x, ok := g.(*packet.Pubcomp); return ok && x.ID == 5 }, ev.Ceiling()) < 0 {
+			return failf(b, "takeover/inherited-qos2-not-completed", "the survivor (%s) sent PUBREL for the QoS 2 publish the incumbent had begun (id 5): no PUBCOMP (eof=%v)", survivor.a.name, sp.EOF), true
+		}
+		for k := 0; k < 2; k++ {
+			if _, err := sp.Subscribe([]packet.Subscription{{Topic: fmt.Sprintf("c13/after/%d", k), QOS: 1}}); err != nil {
+				return failf(b, "takeover/survivor-dead", "after completing the inherited QoS 2 exchange the survivor (%s) gets no SUBACK any more: %v", survivor.a.name, err), true
+			}
+		}
+		if !sp.Ping() {
+			return failf(b, "takeover/survivor-dead", "after completing the inherited QoS 2 exchange the survivor (%s) does not answer PINGREQ", survivor.a.name), true
+		}
+	}
 	// a bystander can still connect and the id is usable (backend not wedged)
 	by, _ := b.Dial("bystander")
 	if _, err := by.ConnectID("bystander", true); err != nil {
